@@ -613,6 +613,9 @@ impl File {
         self.failed_runid = None;
         self.is_override = false;
         self.is_generated = false;
+        // The content is not ours: a checksum recorded by an earlier build
+        // says nothing about it.
+        self.csum.clear();
         Ok(())
     }
 
@@ -620,6 +623,8 @@ impl File {
         self.update_stamp(v, false)?;
         self.failed_runid = None;
         self.is_override = true;
+        // Likewise: the user's content replaces what we checksummed.
+        self.csum.clear();
         Ok(())
     }
 
